@@ -44,6 +44,10 @@ class HarnessError(Exception):
     pass
 
 
+def digest_case(case):
+    return hashlib.sha256(json.dumps(case, sort_keys=True, default=repr).encode()).hexdigest()[:12]
+
+
 # ---------------------------------------------------------------------------- violations
 def vclass(v):
     return (v["oracle"], v["kind"])
@@ -238,6 +242,9 @@ def worker_main(argv):
                 agg["probes"]["violation_dup"] += 1
                 continue
             seen_classes.add(fkey)
+            if len(seen_classes) > 4:
+                agg["probes"]["violation_not_minimised"] += 1
+                continue
             case, tape = v.get("case", out["case"]), v.get("exec_tape", out["exec_tape"])
             try:
                 scase, stape, ok = shrink(eng, case, tape, cls, budget_s=20.0)
